@@ -39,7 +39,7 @@ ENV["CARGO_NET_OFFLINE"] = "true"
 TRUSTED_BASE = [
     "Lean 4.33.0 kernel; Mathlib v4.33.0 as installed",
     "axioms allowed in property theorems: propext, Classical.choice, Quot.sound (audited by #print axioms on every run)",
-    "tools/gen_model.py (regex translator of tables/constants; cross-checked by the bit-exact correspondence run)",
+    "tools/gen_model.py (regex translator of tables, constants and the relational operators at named comparison sites) and tools/gen_fns.py (tokenizer / parser / Lean printer for the bodies of the pure decision functions; conventions in its header); both cross-checked by the bit-exact correspondence run",
     "harness/ (cvh: generators, canonicalisation, oracle) and lean/Driver.lean + Compass/Drv (line protocol glue)",
     "correspondence is differential testing of 'the code is the model' on generated cases, not a proof",
     "IEEE rounding/overflow/NaN of f64/f32 are outside every theorem (theorems are over ordered fields)",
